@@ -184,13 +184,25 @@ def d_error_cond():
     return Chart(Scxml(a, b, c, data=[("x", lit(0))]), vars_=["x"], tags=["error", "cond"])
 
 
-ALL = [d_error_in_if, d_error_cond, d_basic, d_targetless_nested, d_history_active_parent, d_history_shallow, d_history_deep,
+def d_nested_final_high_index():
+    # a nested <final> whose only ancestors besides <scxml> have a document order >= 8:
+    # the generated C tested only the first byte of the ancestor bit array
+    fillers = [State(name="f%d" % i) for i in range(6)]
+    first = State(name="first", trans=[T("e", ["x"])])
+    fin = Final(name="fin")
+    x = State(name="x", trans=[T("e", ["fin"])])
+    comp = State(x, fin, name="comp", trans=[T("done.state.comp", ["first"])])
+    return Chart(Scxml(first, *fillers, comp), tags=["final", "bytes"])
+
+
+ALL = [d_nested_final_high_index, d_error_in_if, d_error_cond, d_basic, d_targetless_nested, d_history_active_parent, d_history_shallow, d_history_deep,
        d_parallel_three_final, d_stale_conflict_cache, d_parallel_region_exit, d_internal,
        d_raise_order, d_data, d_error_block, d_initial_el, d_nested_final_depth, d_toplevel_final,
        d_parallel_preempt, d_multi_target, d_late_binding]
 
 # event words worth trying per directed chart (besides the generic enumeration)
 WORDS = {
+    "d_nested_final_high_index": [["e", "e", "e"]],
     "d_stale_conflict_cache": [["e1", "back", "e1", "back", "e2"]],
     "d_parallel_three_final": [["e1", "e2", "e3"], ["e3", "e1", "e2"]],
     "d_history_shallow": [["e", "out", "back"], ["out", "back"]],
